@@ -4,6 +4,9 @@ Every property that has no claimed check is listed under not_applicable with its
 import json, os
 V = os.path.dirname(os.path.dirname(os.path.abspath(__file__)))
 src = json.load(open(os.path.join(V, "tools", "manifest_src.json")))
+import glob
+for f in glob.glob(os.path.join(V, "tools", "manifest.d", "*.json")):
+    src["checks"][os.path.basename(f)[:-5]] = json.load(open(f))
 props = [json.loads(l)["id"] for l in open(os.path.join(V, "properties.jsonl"))]
 checks = []
 for pid in props:
